@@ -14,6 +14,7 @@ Tie        : Snell-exact single-ray immersion geometries (harness/snellexact.py:
 Spec on impl: reverse_*(p, RayGeometry(p)) == direct(p.reverse(), RayGeometry(p.reverse()))
              ray for ray, in both units; attenuation equal in both directions.
 """
+import math
 import numpy as np
 
 from common import Check, close
@@ -59,6 +60,9 @@ while len(meta) < want and tries < 40 * want:
     if geom is None or not geom["immersion"] or geom["nlegs"] < 2:
         continue
     att = (float(rng.uniform(0, 3)), float(rng.uniform(0, 8)), float(rng.uniform(0, 12))) if rng.random() < 0.7 else None
+    if att is not None and rng.random() < 0.4:
+        att = att + ("polynomial", FREQ / 1e6)      # frequency-dependent laws with these values at FREQ
+    chk.count(attenuation_law="none" if att is None else "polynomial" if len(att) > 3 else "constant")
     # half of the set-ups are moved as a whole by a rigid rotation (about z: the rays leave the plane y = 0 while flat walls
     # keep their normals; or any yaw-pitch-roll): lengths and angles to the local normals are unchanged
     rigid = None
@@ -87,8 +91,10 @@ while len(meta) < want and tries < 40 * want:
         chk.count(rays_replaced_on_the_same_path=True)
     else:
         crowd = 71 if (tries % 4 == 1 and rigid is None) else None      # finely sampled walls, the crossing point at an odd index
-        path = snellexact.arim_path(geom, arim, physical=True, attenuation=att, rigid=rigid, spin=spin, crowd=crowd)
-        chk.count(rays_replaced_on_the_same_path=False, finely_sampled_wall_with_local_normal=crowd is not None)
+        from_end = crowd is not None and tries % 8 == 1                  # ... designated by k - numpoints (counted from the end)
+        path = snellexact.arim_path(geom, arim, physical=True, attenuation=att, rigid=rigid, spin=spin, crowd=crowd, from_end=from_end)
+        chk.count(rays_replaced_on_the_same_path=False, finely_sampled_wall_with_local_normal=crowd is not None,
+                  wall_sample_counted_from_the_end=from_end)
     rg = arim.ray.RayGeometry.from_path(path)
     rpath = path.reverse()
     rrg = arim.ray.RayGeometry.from_path(rpath)
@@ -120,8 +126,13 @@ while len(meta) < want and tries < 40 * want:
     impl["bs"] = float(model.beamspread_2d_for_path(rg)[0, 0])
     impl["rbs"] = float(model.reverse_beamspread_2d_for_path(rg)[0, 0])
     impl["bs_of_reversed"] = float(model.beamspread_2d_for_path(rrg)[0, 0])
-    impl["att"] = float(model.material_attenuation_for_path(path, rg, FREQ)[0, 0])
-    impl["att_of_reversed"] = float(model.material_attenuation_for_path(rpath, rrg, FREQ)[0, 0])
+    # the frequency as a Python float, a 0-d or a one-element float64 array (the caller's array must come back untouched)
+    fkind = int(rng.integers(0, 3))
+    freq_arg = [FREQ, np.array(FREQ), np.array([FREQ])][fkind]
+    chk.count(frequency_argument=["float", "0-d float64 array", "one-element float64 array"][fkind])
+    impl["att"] = float(np.asarray(model.material_attenuation_for_path(path, rg, freq_arg)).reshape(-1)[0])
+    impl["att_of_reversed"] = float(np.asarray(model.material_attenuation_for_path(rpath, rrg, freq_arg)).reshape(-1)[0])
+    impl["freq_after"] = float(np.asarray(freq_arg).reshape(-1)[0])
     # model input from the analytic geometry (independent of RayGeometry)
     n = geom["nlegs"] - 1
     toks = ["P"] + [fhex(geom[k]) for k in ("rho_f", "c_f", "rho_s", "c_l", "c_t")] + [str(n)]
@@ -178,6 +189,19 @@ for m, o in zip(meta, outs):
         spec_ok = False
         chk.violation("attenuation", "material attenuation differs between the two directions",
                       dict(m, impl={str(k): v for k, v in impl.items()}))
+    if impl.get("freq_after", FREQ) != FREQ:
+        spec_ok = False
+        chk.violation("attenuation:frequency-argument", "material_attenuation_for_path changed the caller's frequency array",
+                      dict(m, frequency_before=FREQ, frequency_after=impl["freq_after"], impl={str(k): v for k, v in impl.items()}))
+    # the attenuation against its definition exp(-sum a_k(f) d_k) on the analytic leg lengths (a spec predicate: the
+    # coefficients at FREQ are the ones the materials were built from)
+    if m["att"] is not None:
+        a_ = [m["att"][0]] + [m["att"][1] if md_ == "L" else m["att"][2] for md_ in m["geom"]["modes"][1:]]
+        want_att = math.exp(-sum(ak_ * dk_ for ak_, dk_ in zip(a_, m["geom"]["legs"])))
+        if not close(impl["att"], want_att, 1e-10):
+            spec_ok = False
+            chk.violation("attenuation:definition", "material attenuation is not exp(-sum a_k(f) d_k) on the legs of the ray",
+                          dict(m, expected=want_att, impl={str(k): v for k, v in impl.items()}))
     # --- correspondence with the extracted model -----------------------------------------
     for key, mv in mod.items():
         if mv is None or not close(impl[key], mv, TOL, ATOL):
